@@ -220,6 +220,10 @@ def check(case):
                           'model by %.3g of the pattern maximum' % worst))
     except Exception as e:          # pragma: no cover - harness problem, not a verdict
         fails.append(('harness:reference-model', repr(e)[:200]))
+    # each of the following relations involves a new solve whose currents may differ within the tolerance of the
+    # invariance properties (C05); the gain tolerance follows from it, including the amplification through the net
+    # power of reactive feeds
+    tolsym = common.gain_tol_db((m,), common.gate(common.cond(m)) or 5e-4)
     # (e) symmetries of the documented media layout: concentric media (circular boundary, radial screen)
     # are rotationally symmetric about the z axis; media allocated along X do not depend on y, and a shift
     # along x together with all boundaries leaves the pattern unchanged
@@ -233,7 +237,7 @@ def check(case):
         try:
             g5 = pattern(common.solved(c5))
             d = maxdiff(np.roll(g0, kk, axis=1), g5, top=40)
-            if d > 0.01:
+            if d > tolsym:
                 fails.append(('symmetry:rotation-circular', 'rotating the antenna by %g deg about z over concentric media '
                               'changes the (rotated) pattern by %.3g dB' % (PH[1] * kk, d)))
         except build.Rejected:
@@ -250,10 +254,10 @@ def check(case):
             md['coord'] = md['coord'] + dx
         try:
             d = maxdiff(g0, pattern(common.solved(c5)), top=40)
-            if d > 0.01:
+            if d > tolsym:
                 fails.append(('symmetry:y-shift-linear', 'shifting the antenna along y over media allocated along x changes the pattern by %.3g dB' % d))
             d = maxdiff(g0, pattern(common.solved(c6)), top=40)
-            if d > 0.01:
+            if d > tolsym:
                 fails.append(('symmetry:x-shift-with-boundaries', 'shifting antenna and all boundaries along x changes the pattern by %.3g dB' % d))
         except build.Rejected:
             pass
@@ -284,7 +288,7 @@ def check(case):
             l['v'] = l['v'] / s_
     try:
         d = maxdiff(g0, pattern(common.solved(c7)), top=40)
-        if d > 0.01:
+        if d > tolsym:
             fails.append(('symmetry:em-scaling', 'scaling all lengths by %g, frequency and conductivities by 1/%g changes the pattern by %.3g dB' % (s_, s_, d)))
     except build.Rejected:
         pass
